@@ -67,7 +67,8 @@ BINDINGS = [
     ("quant", {}, {}, "Trace_Quant", "Spec", {}, lambda o: o["ev"] == "quantile" and o["out"] == "ok" and o["strat"] in ("lower", "higher") and len(o["res"]) >= 1 and not o["wide"],
      [("first result element incremented", lambda o: set_path(o, ["res", 0], lambda v: v + 1), "BAD"),
       ("result of the repeated call differs", lambda o: set_path(o, ["res2", 0], lambda v: v + 1), "BAD"),
-      ("one parent cell outside the view changed", lambda o: set_path(o, ["mem1"], lambda v: v + [-3]), "BAD")]),
+      ("one parent cell outside the view changed", lambda o: set_path(o, ["mem1"], lambda v: v + [-3]), "BAD"),
+      ("first element of the receiver after the call moved by one cell", lambda o: set_path(o, ["g1", "ptr"], lambda v: v + 1), "BAD")]),
     ("minmax", {"kinds": "minmax"}, {}, "Trace_MinMax", "Spec", {}, lambda o: o["ev"] == "minmax" and o["ty"] == "f64" and o["min"]["out"] == "ok" and len(set(o["r"])) >= 2,
      [("rank of the returned minimum incremented", lambda o: set_path(o, ["min", "rank"], lambda v: v + 1), "BAD")]),
     ("hist", {"kinds": "hist"}, {}, "Trace_Hist", "TSpec", HC, lambda o: o["ev"] == "hist_add" and o["res"] == "ok",
@@ -76,6 +77,12 @@ BINDINGS = [
      [("payload shapes swapped", lambda o: (o.__setitem__("first", o["second"] + [9])), "BAD")]),
     ("num", {"kinds": "c06"}, {}, "Trace_Num", "Spec", {}, lambda o: o["ev"] == "summ" and o["stat"] == "mean" and o["out"] == "ok",
      [("result moved by 40 quanta", lambda o: set_path(o, ["res"], lambda v: v + 40), "BAD")]),
+    ("num", {"kinds": "corr"}, {}, "Trace_Num", "Spec", {}, lambda o: o["ev"] == "corr" and o["cov_out"] == "ok" and len(o["rows"]) >= 2,
+     [("one off-diagonal covariance moved by 3 quanta", lambda o: set_path(o, ["cov", 0, 1], lambda v: v + 3), "BAD"),
+      ("unit diagonal of the correlation moved by 3 quanta", lambda o: set_path(o, ["pear", 0, 0], lambda v: v - 3), "BAD")]),
+    ("num", {"kinds": "dev"}, {}, "Trace_Num", "Spec", {}, lambda o: o["ev"] == "devscale" and o["ty"] == "f64" and o["dexp"] < 0,
+     [("l2 distance of subnormal differences reported as not finite", lambda o: set_path(o, ["l2c"], lambda v: "nan"), "BAD"),
+      ("largest difference off by one quarter", lambda o: set_path(o, ["linfq"], lambda v: v + 1), "BAD")]),
     ("layout", {}, {}, "Trace_Layout", "Spec", {}, lambda o: o["ev"] == "layout" and o["kind"] == "exact" and len(o["reps"][2]["v"]) >= 1,
      [("result on one representation changed", lambda o: set_path(o, ["reps", 2, "v", 0], lambda v: v + 1), "BAD")]),
 ]
